@@ -92,15 +92,24 @@ def finding_classes(d: Any) -> set[str]:
     """KF-A: a loop after which the job ends (terminal position) with a break branch of >= 2 events
     KF-B: a loop whose body has an AND/OR fork in tail position and whose exit ends the job or joins parallel
           branches (tail position of an AND/OR fork branch)
-    KF-C: a loop whose body has, in tail position, a loop that contains a break"""
+    KF-C: a loop whose body has, in tail position, a loop that contains a break; refined (calibrated on 1500 random
+          members: the three sub-classes below behave uniformly, the rest of KF-C satisfies C01 and C05):
+          KF-Ct: the inner loop is the last item of the body itself and nothing follows the outer loop (terminal);
+          KF-Cf: the inner loop is reached in tail position through a fork of the body"""
     out: set[str] = set()
     for lp, terminal, parallel in loops_with_context(d):
         if terminal and long_break(lp[1]):
             out.add("KF-A")
         if (terminal or parallel) and any(t[0] == "fork" and t[1] in ("AND", "OR") for t in tails(lp[1][1])):
             out.add("KF-B")
-        if any(t[0] == "loop" and has_brk_any(t) for t in tails(lp[1][1])):
+        inner = [t for t in tails(lp[1][1]) if t[0] == "loop" and has_brk_any(t)]
+        if inner:
             out.add("KF-C")
+            direct = lp[1][1][-1][0] == "loop" and has_brk_any(lp[1][1][-1])
+            if direct and terminal:
+                out.add("KF-Ct")
+            if not direct:
+                out.add("KF-Cf")
     return out
 
 
@@ -225,11 +234,18 @@ def report(ctx: Ctx, c: dict[str, Any], what: str, extra: dict[str, Any] | None 
     inp = replay_input(c)
     rep = {"input": inp, "learned_text": c["learn"].get("text") if "learn" in c else None, "classes": c["classes"],
            **(extra or {})}
-    if c["kind"] == "corpus":
-        ctx.violation(what, rep, key=("corpus", c["file"]))
-    else:
-        ctx.violation(what, rep, key=("definition", canon_key(c["blk"])),
-                      alt_keys=[("class", k) for k in c["classes"]])
+    key = ("corpus", c["file"]) if c["kind"] == "corpus" else ("definition", canon_key(c["blk"]))
+    alt = [] if c["kind"] == "corpus" else [("class", k) for k in c["classes"]]
+    if not ctx.is_known(key, alt) and "uuid_seed" in c and "text" in c.get("learn", {}):
+        # the learner's answer must be a function of the request: ask again in a fresh interpreter and report only
+        # what shows again (a long-lived worker process was once seen to produce a text no fresh process reproduces)
+        again = pvlib.run_requests_fresh([{"op": "learn", "chunks": [c["pv"]], "hash_seed": c.get("hash_seed", 0),
+                                           "uuid_seed": c["uuid_seed"], "timeout": 60}])[0]
+        if again.get("text") != c["learn"]["text"]:
+            ctx.tick("violation_not_reproduced_in_fresh_process")
+            ctx.cov.setdefault("unreproduced", []).append({"definition": c["blk"], "first_verdict": what[:300]})
+            return
+    ctx.violation(what, rep, key=key, alt_keys=alt)
 
 
 def replay_case(data: dict[str, Any], want: str) -> int:
